@@ -10,6 +10,10 @@
     conn.wire cipher= key= iv= writes=<n,n,...> plain=<hex> => ok <hex on the wire>
     conn cipher= key= iv= thr=<n> dir=ab|ba frag=<seed> pkts=<id:hex;id:hex;...>
                                                            => ok <id:hex;...> | err ... | panic | hang
+    cfb8.pair cipher= key= iv= spare=<n> kinds=e|d|ee|ed|de|dd lazy=0|1 sched=<stream:mode:n,...> msg0= msg1=
+                                                           => ok out0=<hex> out1=<hex> back=<hex caller's array> | panic
+    conn.sess cipher= key= iv= spare=<n> thr=<n> rd=tcp|<frag seed> accept=0|1 script=<a>id:hex,b<,aC,...>
+                                                           => ok a=<pkts> b=<pkts> keybuf=same|changed | err step=k | panic | hang
 
   call modes: inplace (dst = src), disjoint / below / above (separate buffer: own allocation, directly
   below src, directly above src in one array), dstlonger (separate, (n mod 7)+1 bytes longer),
@@ -153,6 +157,81 @@ def conn (args : List String) (obs : String) : Verdict :=
     { model := want, spec := if obs == want then none else some "packets received differ from packets sent" }
   | none => bad "conn"
 
+/-! ### one or two streams built from one caller-owned IV slice (`cfb8.pair`) -/
+
+structure Sched where
+  stream : Nat
+  call : Call
+
+def parseSched (s : String) : Option (List Sched) :=
+  if s == "-" then some [] else
+  (s.splitOn ",").mapM fun t =>
+    match t.splitOn ":" with
+    | [k, m, n] =>
+      match k.toNat?, n.toNat? with
+      | some k, some n => some { stream := k, call := { mode := m, n := n } }
+      | _, _ => none
+    | _ => none
+
+def spareFill : Byte := 0xa7
+
+/-- the constructor copies the IV (`make` + `copy`): the streams are independent of each other and of the
+caller's slice, whatever its capacity; so the model runs each stream on its own calls, and the caller's
+backing array (`iv ++ spare bytes`) is what it was -/
+def pair (args : List String) (obs : String) : Verdict :=
+  match kv args "cipher", (kv args "key").bind parseHex, (kv args "iv").bind parseHex,
+        (kv args "spare").bind String.toNat?, kv args "kinds", (kv args "sched").bind parseSched,
+        (kv args "msg0").bind parseHex, (kv args "msg1").bind parseHex with
+  | some cn, some key, some iv, some spare, some kinds, some sched, some msg0, some msg1 =>
+    match cipherOf cn key with
+    | none => bad "cipher"
+    | some c =>
+      let de (k : Nat) : Bool := (kinds.toList.getD k 'e') == 'd'
+      let callsOf (k : Nat) : List Call := (sched.filter (·.stream == k)).map (·.call)
+      let r0 := runModel c (de 0) (newCFB8 iv) (callsOf 0) msg0
+      let r1 := runModel c (de 1) (newCFB8 iv) (callsOf 1) msg1
+      let back := hexOfBytes (iv ++ List.replicate spare spareFill)
+      let model :=
+        match r0, r1 with
+        | some (o0, t0, _), some (o1, t1, _) =>
+          s!"ok out0={hexOfBytes o0} out1={hexOfBytes o1}{if t0 || t1 then " tailmod" else ""} back={back}"
+        | _, _ => "panic"
+      -- spec: each stream's output is the mode's definition on its own message, from the IV
+      let w0 := hexOfBytes (Spec.CFB8.run c.E (de 0) iv msg0).1
+      let w1 := hexOfBytes (Spec.CFB8.run c.E (de 1) iv msg1).1
+      let toks := obs.splitOn " "
+      let spec : Option String :=
+        if iv.length != c.bs then none
+        else if toks.head? != some "ok" then some "expected ok"
+        else if kv toks "out0" != some w0 then some s!"stream 0 differs from the mode's definition: expected {w0}"
+        else if kv toks "out1" != some w1 then some s!"stream 1 differs from the mode's definition: expected {w1}"
+        else if toks.contains "tailmod" || toks.contains "srcmod" then some "bytes outside dst[:len(src)] were modified"
+        else none     -- a changed `back` is a model disagreement (D), not by itself a violation of the statement
+      { model, spec }
+  | _, _, _, _, _, _, _, _ => bad "cfb8.pair"
+
+/-! ### scripted sessions with the cipher switched on in mid-stream (`conn.sess`) -/
+
+/-- what each end must have received: the packets the other end sent, in order, as many as it read -/
+def sess (args : List String) (obs : String) : Verdict :=
+  match kv args "script" with
+  | none => bad "conn.sess"
+  | some sc =>
+    let steps := if sc == "-" then [] else sc.splitOn ","
+    let sentBy (who : Char) : List String :=
+      steps.filterMap fun st => if st.startsWith (String.singleton who ++ ">") then some (st.drop 2).toString else none
+    let readsOf (who : Char) : Nat := (steps.filter fun st => st == String.singleton who ++ "<").length
+    let show_ (l : List String) : String := if l.isEmpty then "-" else ";".intercalate l
+    let a := show_ ((sentBy 'b').take (readsOf 'a'))
+    let b := show_ ((sentBy 'a').take (readsOf 'b'))
+    let want := s!"ok a={a} b={b} keybuf=same"
+    let toks := obs.splitOn " "
+    let spec : Option String :=
+      if toks.head? != some "ok" then some "a packet was lost, damaged or refused"
+      else if kv toks "a" != some a || kv toks "b" != some b then some "packets received differ from packets sent"
+      else none
+    { model := want, spec }
+
 def handle (op : String) (args : List String) (obs : String) : Option Verdict :=
   match op with
   | "aes.selftest" =>
@@ -172,6 +251,8 @@ def handle (op : String) (args : List String) (obs : String) : Option Verdict :=
   | "cfb8.rt" => some (roundTrip args obs)
   | "conn.wire" => some (connWire args obs)
   | "conn" => some (conn args obs)
+  | "cfb8.pair" => some (pair args obs)
+  | "conn.sess" => some (sess args obs)
   | _ => none
 
 end Driver.C10
